@@ -250,7 +250,7 @@ func (env *CEnv) eval(e ast.Expr) (Value, types.Type) {
 			v, _ := env.eval(x.High)
 			hi = asInt(v)
 		}
-		return SliceV{sv.Ref, add(sv.Off, lo), sub(hi, lo), sub(sv.Cap, lo)}, bt
+		return SliceV{sv.Ref, add(sv.Off, lo), sub(hi, lo), sub(sv.Cap, lo), false}, bt
 	case *ast.StarExpr:
 		pv, pt := env.eval(x.X)
 		p, ok := pt.Underlying().(*types.Pointer)
